@@ -22,9 +22,12 @@
 
    Programs whose meaning depends on something the language leaves undefined evaluate to (or are flagged)
    "undef" and are never asserted:
-     U1  a variable is read whose binding activation is not the most recent activation of its lambda
-         literal (the VM keeps one slot per lambda parameter: closure that escaped and is called after its
-         defining lambda literal was activated again, or re-entrant activation);
+     U1  a variable is read whose binding activation is neither the one the parameter array in force holds
+         nor the most recent activation of its lambda literal (the VM keeps one slot per lambda parameter:
+         closure that escaped and is called after its defining lambda literal was activated again, or
+         re-entrant activation).  A read IS defined when the array in force holds the binding activation
+         even though a later activation exists: that is what the snapshot a partial application takes when
+         it is created (partialCall.vmArgs) and swaps in around its final call is for;
      U2  function-position symbol bound by a lambda; parameter named like a library function;
          `call` used as a value or without arguments; `call` applied to a query;
      U3  a string-typed library parameter receives an integer, or a string that came out of a library
@@ -56,7 +59,7 @@ Or(qs)       == [op |-> "or", qs |-> qs]
 
 \* ---------------------------------------------------------------- library
 Arity == ("add" :> 2) @@ ("sub" :> 2) @@ ("sub3" :> 3) @@ ("neg" :> 1) @@
-         ("pair" :> 2) @@ ("first" :> 1) @@ ("second" :> 1) @@ ("apply1" :> 2) @@
+         ("pair" :> 2) @@ ("first" :> 1) @@ ("second" :> 1) @@ ("apply1" :> 2) @@ ("applyto" :> 2) @@
          ("keyed" :> 1) @@ ("tagged" :> 2) @@ ("typed" :> 2) @@ ("and" :> 2) @@ ("or" :> 2)
 IsNative(n) == n \in DOMAIN Arity
 Variadic == {"call"}           \* only ever in function position, with at least the function argument
@@ -119,6 +122,10 @@ NativeCall(n, vs, st) ==
          IF IsFn(vs[1]) /\ NumArgs(vs[1]) = 1 /\ vs[2].t = "int"
          THEN LET r == Apply(vs[1], <<vs[2]>>, st) IN R(Wrap(r.v), r.st)
          ELSE R(Err, st)
+    [] n = "applyto" ->     \* applyto : int * (int -> x) -> x; `applyto f` is a NATIVE partial application holding a closure
+         IF IsFn(vs[2]) /\ NumArgs(vs[2]) = 1 /\ vs[1].t = "int"
+         THEN LET r == Apply(vs[2], <<vs[1]>>, st) IN R(Wrap(r.v), r.st)
+         ELSE R(Err, st)
     [] n = "keyed" -> LET k == StrArg(vs[1]) IN
          R(IF k = "ok" THEN QV(Keyed(vs[1].s)) ELSE IF k = "undef" THEN Undef ELSE Err, st)
     [] n = "tagged" -> LET k == StrArg(vs[1]) v == StrArg(vs[2]) IN
@@ -178,8 +185,9 @@ Eval(e, env, st) ==
     [] e.k = "sym" ->
          LET I == {i \in DOMAIN env : env[i].n = e.n} IN
          IF I # {} THEN LET en == env[MinOf(I)] IN
-                        R(en.v, IF LatestAct(st, en.l) # en.a THEN [st EXCEPT !.u = TRUE]            \* U1
-                                ELSE IF SlotAct(st, en.l) # en.a THEN [st EXCEPT !.pe = TRUE] ELSE st)
+                        R(en.v, IF SlotAct(st, en.l) = en.a THEN st                                  \* the slot holds it
+                                ELSE IF LatestAct(st, en.l) # en.a THEN [st EXCEPT !.u = TRUE]       \* U1
+                                ELSE [st EXCEPT !.pe = TRUE])
          ELSE IF IsNative(e.n) THEN R(NativeV(e.n), st)
          ELSE IF e.n \in Variadic THEN R(Undef, st)
          ELSE R(Err, st)                                                       \* undefined symbol
